@@ -31,6 +31,53 @@ EVIDENCE = dict(
 
 DESCS = ["a", "A", "a ", "", "é", "b", "c", "d", "x'y\"z;--", "%", "_", "0", "1", "L" * 300] + [f"img{k}.png" for k in range(40)]
 
+# Groups of NEAR-IDENTICAL descriptions: members of a group differ only by Unicode normalisation form (NFC / NFD / NFKC /
+# canonical reordering), case or case folding, leading / trailing / invisible white space, a trailing control character,
+# being a prefix of one another, JSON key order / spacing / number spelling, quoting and SQL / LIKE / printf meta characters,
+# number spelling, astral code points. Descriptions are opaque: every member is a description of its own, must get an id of
+# its own in a subspace with room and must come back byte for byte. (No NUL, no lone surrogates: outside the quantifier.)
+NEAR_GROUPS = [
+    ["\u00e9", "e\u0301", "E\u0301", "\u00c9", "e", "e\u0301\u0301", "\u00e9\u0301"],
+    ["\u00c5", "A\u030a", "\u212b", "a\u030a", "\u00e5"],
+    ["\ud55c", "\u1112\u1161\u11ab", "\u1112\u1161", "\ud558\u11ab"],
+    ["\ufb01le", "file", "\uff46ile", "File", "FILE", "f\u0131le"],
+    ["a\u0323\u0307", "a\u0307\u0323", "\u1ea1\u0307", "\u0227\u0323"],
+    ["\u00df", "ss", "SS", "\u1e9e", "s\u017f"],
+    ["K", "\u212a", "k", "\u03a9", "\u2126"],
+    ["\u2460", "1", "\uff11", "01", "1.0", "+1", "1e0", " 1", "1 ", "\u0661"],
+    ["a", "a ", " a", "a  ", "a\t", "a\n", "a\r\n", "a\u00a0", "a\u3000", "a\u200b", "a\ufe0f", "a\u00ad", "A", ""],
+    ["x", "x\x01", "x\x1b", "x\x7f", "x\x1f", "x\u0085", "x\u2028", "x\x08"],
+    ["img", "img1", "img1.", "img1.png", "img1.png ", "img1.pn", "img10.png", "IMG1.PNG"],
+    ["L" * 299, "L" * 300, "L" * 301, "L" * 300 + "\u0301", "L" * 20000, "L" * 19999 + "l", "L" * 19999],
+    ['{"a": 1, "b": 2}', '{"b": 2, "a": 1}', '{"a":1,"b":2}', '{"a": 1, "b": 2} ', '{"a": 1.0, "b": 2}', '{"a": "1", "b": 2}',
+     '{"a": 1, "b": 2, "a": 1}'],
+    ["x'y", 'x"y', "x''y", "x\\y", "x\\\\y", "x\\'y", "x`y", "xy"],
+    ["%", "%%", "%s", "%d", "_", "a_c", "abc", "a%c", "a*c", "a?c", "[a]", "a.c"],
+    ["--", ";", "x;--", "x'; DROP TABLE ids_8bit;--", ":1", "?1", "@a", "$a", "NULL", "null", "None"],
+    ["\U0001f642", "\U0001f643", "\\ud83d\\ude42", "\U00010000", "\U0010ffff", "\uffff", "\ufffd", "\U0001f468\u200d\U0001f469",
+     "\U0001f468\U0001f469", "\U0001f642\ufe0f"],
+    ["\ufeffb", "b\ufeff", "\ufeff", "b"],
+    ["/home/u/cafe\u0301.png", "/home/u/caf\u00e9.png", "/home/u/cafe.png", "/home/u/CAFE\u0301.png", "/home/u/cafe\u0301.png/",
+     "/home/u//cafe\u0301.png"],
+]
+
+
+def _near_kind(a: str, b: str) -> str:
+    """how two different descriptions are alike (evidence distribution only)"""
+    import unicodedata as ud
+    if ud.normalize("NFC", a) == ud.normalize("NFC", b):
+        return "canonically-equivalent"
+    if ud.normalize("NFKC", a) == ud.normalize("NFKC", b):
+        return "compatibility-equivalent"
+    if a.casefold() == b.casefold() or ud.normalize("NFKC", a.casefold()) == ud.normalize("NFKC", b.casefold()):
+        return "case"
+    if a.strip() == b.strip() or a.rstrip("\x00\x01\x08\x1b\x1f\x7f\u0085\u2028 ") == b.rstrip("\x00\x01\x08\x1b\x1f\x7f\u0085\u2028 "):
+        return "white-space-or-control"
+    if a.startswith(b) or b.startswith(a):
+        return "prefix"
+    return "other"
+
+
 # (space, subspace) catalogue by path-forcing size
 SUBS_BY_SPACE = {
     (0, True): [(1, 2), (0, 2), (255, 256), (1, 3), (0, 3), (1, 4), (2, 5), (3, 4), (0, 256), (1, 256), (10, 21), (5, 15), (100, 111)],
@@ -51,7 +98,8 @@ def _overlaps(rng, su):
     return rng.choice(c)
 
 
-def gen_history(rng, profile: str, length: int) -> dict:
+def gen_history(rng, profile: str, length: int, near: bool = False) -> dict:
+    """near: the descriptions of the history are the members of 1-3 groups of near-identical descriptions (NEAR_GROUPS)"""
     max_ids = rng.choice([1, 2, 3, 10, 1024, 10**6])
     ops = []
     lab = [0]
@@ -117,6 +165,10 @@ def gen_history(rng, profile: str, length: int) -> dict:
             if rng.random() < 0.5:
                 subs.append((sp, _overlaps(rng, su)))
         pool = rng.sample(DESCS, rng.randint(1, 40))
+    if near:
+        pool = [x for g in rng.sample(NEAR_GROUPS, rng.randint(1, 3)) for x in g if len(x) <= 400]
+        if len(pool) > 12 and rng.random() < 0.7:
+            pool = rng.sample(pool, 12)
     ties = profile != "bulk16" and rng.random() < 0.25
     gets = []
 
@@ -163,7 +215,55 @@ def gen_history(rng, profile: str, length: int) -> dict:
             add(op="get_info", id=some_id(), dt=dt)
         else:
             add(op="collide", p=rng.choice([0.0, 0.5, 1.0]), dt=0)
-    return {"max_ids": max_ids, "seed": rng.randrange(1 << 30), "start": start, "profile": profile, "ops": ops}
+    return {"max_ids": max_ids, "seed": rng.randrange(1 << 30), "start": start, "profile": profile + ("+near" if near else ""), "ops": ops}
+
+
+def near_cases(rng, quick: bool):
+    """Near-identical descriptions requested in ONE subspace in one history (every group, both orders): each gets an id of its
+    own while there is room, a repeated request returns the same id, get_info / get_all give back the requested strings;
+    force-set onto neighbouring ids; on the enumerable path, on the large path (almost empty 32-bit space; 255 ids with
+    max_ids 3), through two IDManager objects."""
+    S8, S8D, S32, S16 = [8, False], [0, True], [24, True], [8, True]
+
+    def h(max_ids, ops, tag):
+        return {"max_ids": max_ids, "seed": 1, "start": dbutil.T0, "profile": "near:" + tag, "ops": [dict(o, n=k) for k, o in enumerate(ops)]}
+
+    g = lambda d, sp, su, dt=1: {"op": "get", "sp": sp, "su": su, "d": d, "dt": dt}
+    for gi, G0 in enumerate(NEAR_GROUPS):
+        for order in (0, 1):
+            G = list(G0) if order == 0 else list(reversed(G0))
+            if quick and max(map(len, G)) > 1000:
+                G = [x for x in G if len(x) <= 1000] + [x for x in G if len(x) > 1000][:2]
+            n = len(G)
+            su = [1, 1 + n + 3]
+            # each member an id of its own; asked again in another order; read back one by one and listed
+            again = list(range(n))
+            rng.shuffle(again)
+            reads = [{"op": "get_info", "id": {"ref": k}, "dt": 0} for k in range(n)] + \
+                    [{"op": "get_all", "sp": S8, "su": su, "dt": 0}, {"op": "get_all", "sp": None, "su": [0, 256], "dt": 0}, {"op": "count", "sp": S8, "su": su, "dt": 0}]
+            ops = [g(x, S8, su) for x in G] + [g(G[k], S8, su) for k in again] + reads
+            yield h(1024, ops, "own-id")
+            if order == 0:
+                yield h(1024, [dict(o, who=k % 2) if k % 2 else o for k, o in enumerate(ops)], "own-id-two-managers")
+            # large path: an almost empty 32-bit space; 255 ids of which at most 3 may stay
+            ops = [g(x, S32, [0, 256]) for x in G] + [g(G[k], S32, [0, 256]) for k in again] + \
+                  [{"op": "get_info", "id": {"ref": k}, "dt": 0} for k in range(n)] + [{"op": "get_all", "sp": S32, "su": [0, 256], "dt": 0}]
+            yield h(1024, ops, "large-roomy")
+            if order == 0:
+                ops = [g(x, S16, [1, 2]) for x in G] + [g(G[k], S16, [1, 2]) for k in again] + [{"op": "get_all", "sp": S16, "su": [1, 2], "dt": 0}]
+                yield h(3, ops, "large-tight")
+            # force-set neighbouring ids to two members, request both, re-bind one id to the other member, request again
+            for sp, a, b, sub in ((S8, 1, 2, [1, 4]), (S8D, 1 << 24, 2 << 24, [1, 4])):
+                x, y = G[0], G[1 + (gi + order) % (n - 1)]
+                yield h(1024, [{"op": "set", "id": a, "d": x, "dt": 1}, {"op": "set", "id": b, "d": y, "dt": 1}, g(x, sp, sub), g(y, sp, sub),
+                               {"op": "get_info", "id": a, "dt": 0}, {"op": "get_info", "id": b, "dt": 0}, {"op": "get_all", "sp": sp, "su": sub, "dt": 0},
+                               {"op": "set", "id": a, "d": y, "dt": 1}, {"op": "get_info", "id": a, "dt": 0}, g(x, sp, sub), g(y, sp, sub),
+                               {"op": "get_all", "sp": sp, "su": [0, 256], "dt": 0}, {"op": "del", "id": b, "dt": 1}, g(y, sp, sub), g(x, sp, sub),
+                               {"op": "get_info", "id": a, "dt": 0}, {"op": "count", "sp": sp, "su": sub, "dt": 0}], "force-set")
+    # random histories whose descriptions are near-identical
+    for _ in range(40 if quick else 400):
+        prof = rng.choice(["small", "small", "boundary", "collide", "mixed"])
+        yield gen_history(rng, prof, rng.choice([5, 13, 20, 40]), near=True)
 
 
 def structured_cases():
@@ -281,6 +381,7 @@ def cases(ctx: Ctx):
     rng = ctx.rng
     quick = ctx.quick
     yield from structured_cases()
+    yield from near_cases(rng, quick)
     subs = [(b, e) for b in range(256) for e in range(b + 1, 257) if e != 1]
     for max_ids in (1, 3, 1024, 10**6):
         chosen = subs if not quick else rng.sample(subs, 1500)
@@ -291,6 +392,9 @@ def cases(ctx: Ctx):
         r = rng.random()
         if n % 40 == 5:
             yield gen_history(rng, "bulk16", rng.randint(4, 25 if quick else 60))
+            continue
+        if n % 10 == 3:
+            yield gen_history(rng, rng.choice(["small", "boundary", "collide", "mixed"]), rng.choice([5, 20, 50, 100]), near=True)
             continue
         if r < 0.30:
             yield gen_history(rng, "small", rng.choice([1, 2, 3, 5, 8, 13, 20, 40, 60]))
@@ -322,7 +426,12 @@ def run(ctx: Ctx):
                 "{0, 1us, ~1s, 1h, negative}) over profiles small / boundary (subspace size = max_ids-1..+1) / collide (large path "
                 "with steered collisions) / bulk255, bulk16 (pre-filled 16-bit subspaces) / mixed (all 5 spaces, sizes 1..2^32-ish, "
                 "overlapping subspaces), in 60 % of them the calls alternate at random between 2-3 IDManager objects on the one file, "
-                "+ structured histories + int(size*frac) table. distinct = canonical JSON of the history; "
+                "+ structured histories + int(size*frac) table + NEAR-IDENTICAL descriptions (19 groups, 141 strings: NFC / NFD / NFKC "
+                "/ reordered marks, case and case folding, leading / trailing / invisible white space, trailing control characters, "
+                "prefixes, JSON key order and spacing, quotes / backslash / percent / SQL and LIKE meta characters, number spellings, "
+                "astral and non-character code points, 300..20000 characters) requested in one subspace in one history in both orders "
+                "(own id each, same id again, get_info / get_all), force-set onto neighbouring ids, enumerable / large roomy / large "
+                "tight paths, two managers; every tenth random history draws its descriptions from these groups. distinct = canonical JSON of the history; "
                 "non-trivial = history with at least one get_id")
     run_corpus(ctx, PROP, check_case)
     budget = ctx.budget_s * (0.68 if ctx.quick else 0.85)
@@ -331,6 +440,17 @@ def run(ctx: Ctx):
             break
         check_case(ctx, c)
         ctx.case(c, nontrivial=any(o.get("op") == "get" for o in c.get("ops", [])))
+        if "near" in c.get("profile", ""):
+            # which kinds of near-identical pairs were requested in one subspace of one history
+            by_sub = {}
+            for o in c["ops"]:
+                if o.get("op") == "get":
+                    by_sub.setdefault((tuple(o["sp"]), tuple(o["su"])), set()).add(o["d"])
+            for ds in by_sub.values():
+                ds = sorted(ds)[:14]
+                for i, a in enumerate(ds):
+                    for b in ds[i + 1:]:
+                        ctx.count("near-pair-in-one-subspace:" + _near_kind(a, b))
         if "ops" in c:
             ctx.count("history-len:" + ("1" if len(c["ops"]) <= 1 else "2-10" if len(c["ops"]) <= 10 else "11-100" if len(c["ops"]) <= 100
                                          else "101-400" if len(c["ops"]) <= 400 else ">400"))
